@@ -7,6 +7,7 @@
 //!
 //! Each request is decoded on a thread with a 2 MiB stack (Rust's default thread stack).
 
+#![allow(unused_imports)]
 use std::io::{Read, Write};
 use yrs::encoding::read::Cursor;
 use yrs::sync::{AwarenessUpdate, MessageReader};
@@ -38,104 +39,7 @@ pub const ENTRIES: [&str; 21] = [
     "encode_state_vector_from_update_v2",
 ];
 
-/// returns Ok(true) = value, Ok(false) = error
-fn run(entry: u8, data: &[u8]) -> bool {
-    fn split(data: &[u8]) -> (&[u8], &[u8]) {
-        if data.is_empty() {
-            return (data, data);
-        }
-        let k = (data[0] as usize).min(data.len() - 1);
-        (&data[1..1 + k], &data[1 + k..])
-    }
-    match entry {
-        0 => match Update::decode_v1(data) {
-            Ok(u) => {
-                let _ = u.encode_v1();
-                let _ = u.encode_v2();
-                let _ = u.state_vector();
-                let _ = u.insertions(true);
-                true
-            }
-            Err(_) => false,
-        },
-        1 => match Update::decode_v2(data) {
-            Ok(u) => {
-                let _ = u.encode_v1();
-                let _ = u.encode_v2();
-                true
-            }
-            Err(_) => false,
-        },
-        2 => StateVector::decode_v1(data).map(|v| v.encode_v1()).is_ok(),
-        3 => StateVector::decode_v2(data).map(|v| v.encode_v2()).is_ok(),
-        4 => Snapshot::decode_v1(data).map(|v| v.encode_v1()).is_ok(),
-        5 => Snapshot::decode_v2(data).map(|v| v.encode_v2()).is_ok(),
-        6 => IdSet::decode_v1(data).map(|v| v.encode_v1()).is_ok(),
-        7 => IdSet::decode_v2(data).map(|v| v.encode_v2()).is_ok(),
-        8 => StickyIndex::decode_v1(data).map(|v| v.encode_v1()).is_ok(),
-        9 => StickyIndex::decode_v2(data).map(|v| v.encode_v2()).is_ok(),
-        10 => serde_json::from_slice::<StickyIndex>(data).map(|v| serde_json::to_string(&v)).is_ok(),
-        11 => {
-            let mut c = Cursor::new(data);
-            match Any::decode(&mut c) {
-                Ok(a) => {
-                    let mut e = EncoderV1::new();
-                    a.encode(&mut e);
-                    let _ = e.to_vec();
-                    let mut s = String::new();
-                    a.to_json(&mut s);
-                    true
-                }
-                Err(_) => false,
-            }
-        }
-        12 => match std::str::from_utf8(data) {
-            Ok(s) => Any::from_json(s).is_ok(),
-            Err(_) => false,
-        },
-        13 => {
-            let mut d = DecoderV1::new(Cursor::new(data));
-            let mut ok = true;
-            let mut n = 0;
-            for m in MessageReader::new(&mut d) {
-                match m {
-                    Ok(m) => {
-                        let _ = m.encode_v1();
-                    }
-                    Err(_) => {
-                        ok = false;
-                        break;
-                    }
-                }
-                n += 1;
-                if n > 1_000_000 {
-                    break;
-                }
-            }
-            ok
-        }
-        14 => AwarenessUpdate::decode_v1(data).map(|v| v.encode_v1()).is_ok(),
-        15 => {
-            let (a, b) = split(data);
-            yrs::merge_updates_v1([a, b]).is_ok()
-        }
-        16 => {
-            let (a, b) = split(data);
-            yrs::merge_updates_v2([a, b]).is_ok()
-        }
-        17 => {
-            let (sv, u) = split(data);
-            yrs::diff_updates_v1(u, sv).is_ok()
-        }
-        18 => {
-            let (sv, u) = split(data);
-            yrs::diff_updates_v2(u, sv).is_ok()
-        }
-        19 => yrs::encode_state_vector_from_update_v1(data).is_ok(),
-        20 => yrs::encode_state_vector_from_update_v2(data).is_ok(),
-        _ => false,
-    }
-}
+use vh::props::c10::run_entry as run;
 
 fn maxrss_kb() -> i64 {
     unsafe {
